@@ -107,6 +107,9 @@ CLAIMED['C07'] = ('raise-site / exception_cls typing against the forward-referen
          'PARTIAL: the equality of verdicts between the string and the evaluated spelling of a program is NOT decided (it depends on frames, module tables and definition order at run time). Decided are structural clauses of the property, each a necessary condition: an unresolvable name can only surface as a forward-reference exception of beartype.roar; a failed resolution is not remembered and a successful one is (usable once defined, without re-decoration); the proxy resolves a name to the module attribute, else to the local of the still-running enclosing callable, else raises; a string is evaluated in a scope with Python\'s precedence (class body, enclosing locals, globals, builtins), built once per decorated callable, with the classes being decorated visible by name; an undefined name yields a stored proxy instead of failing the decoration; every route resolves a string before anything else looks at the hint and converts whatever the evaluation raises; a check against a proxy answers what isinstance / is_bearable answer for the referent and the very object.',
          AST_NOTE + ' The scripted resolvers, frames and expected outcomes are specification written from the property text.', 'DESIGN.md §4 C07, §5')
 
+# third round
+EXTRA2 = {'C03': ('', ' Each raise-or-warn flag is derived from the option of its own kind; the memo tables of is_bearable and die_if_unbearable are two distinct dictionaries.'), 'C05': (' + compiler-flag check of the hooked parse', ' The hooked module is parsed with PyCF_ONLY_AST and no other compiler flag.'), 'C08': ('', ' Generators annotated by the weaker iterator protocols get the same bidirectional wrapper (the protocol evaluator also runs `async for`).'), 'C09': ('', ' The explanation reads at most one item also when the wrapper made no random draw.'), 'C10': (' + name agreement of the sign-detection tables', ' The sign-detection tables map each module.Name prefix to the sign of the same name (reviewed aliases excepted).'), 'C11': (' + reviewed table of hint-keyed lookups (fail-closed)', ' Raw annotations reach the subscription factories of the typing module only inside a handler for TypeError (F24, F25 repaired in /repo, fix: 3ce2b04, a599b3a); dictionary lookups keyed by a hint in the conversion pipeline are guarded against unhashable hints or hashable by dispatch; beartype.door never hashes raw hint arguments unguarded.'), 'C12': (' + identity of the factory argument in the generated scope', ' The operand of a leaf validator is the argument as written (IsEqual[(3,)] compares with the tuple; classes are reached through the scope, never by a bare builtin name).'), 'C13': ('', ' The class-decoration domain includes class stacks two deep and the O0 strategy; the class is marked as decorated only after every member was decorated and replaced.'), 'C14': (' + alias scan of memo tables + hash/equality agreement of key classes', ' No memo table is an alias of another; reducers that resolve through the current call build uncacheable metadata; the __eq__ of a class with a stored hash compares every hashed component.'), 'C15': (' + publish-once analysis of lazily computed shared attributes', ' A lazily computed shared attribute is published by one plain assignment; a class is marked decorated last.'), 'C16': (' + abstract interpretation of is_python_optimized', " The interpreter's own optimisation state comes before the environment variable; the hooked parse uses PyCF_ONLY_AST only."), 'C17': ('', ' The singleton table is a plain unbounded dictionary; option values are validated by type, never by == / in.'), 'C18': ('', ' Each raise-or-warn flag is derived from the option of its own kind.'), 'C19': ('', ' A class that defines __eq__ defines __hash__.')}
+
 NOT_YET = {}
 NOT_APPLICABLE = {}      # C07 was listed here until its structural clauses were split off and claimed (DESIGN.md §5)
 
@@ -118,6 +121,8 @@ def main():
             tech, text, note, ref = CLAIMED[pid]
             if pid in EXTRA:
                 tech, text = tech + EXTRA[pid][0], text + EXTRA[pid][1]
+            if pid in EXTRA2:
+                tech, text = tech + EXTRA2[pid][0], text + EXTRA2[pid][1]
             checks.append({
                 'property_id': pid,
                 'quick_cmd': f'./check {pid} --tier quick',
